@@ -3,11 +3,14 @@ from __future__ import annotations
 
 import asyncio
 import itertools
+import json
+import os
 import random
 from typing import Any
 
 from streamflow.core.workflow import Status, Token
-from streamflow.workflow.step import GatherStep, ScatterStep
+from streamflow.workflow.executor import StreamFlowExecutor
+from streamflow.workflow.step import GatherStep, ScatterStep, Transformer
 from streamflow.workflow.token import ListToken, ObjectToken, TerminationToken
 
 from sfv.framework import Ctx, Property
@@ -87,6 +90,78 @@ def rand_nested(rng: random.Random, levels: int, sizes: list[int]) -> Any:
         return rand_leaf(rng, rng.randint(0, 50))
     n = rng.choice(sizes)
     return [rand_nested(rng, levels - 1, sizes) for _ in range(n)]
+
+
+CWL_SCATTER_1 = """#!/usr/bin/env cwl-runner
+cwlVersion: v1.2
+class: Workflow
+requirements:
+  InlineJavascriptRequirement: {}
+  ScatterFeatureRequirement: {}
+inputs:
+  xs: int[]
+outputs:
+  ys:
+    type: Any
+    outputSource: work/y
+steps:
+  work:
+    run:
+      class: ExpressionTool
+      inputs: {x: int}
+      outputs: {y: int}
+      expression: "${return {'y': inputs.x * 2 + 1};}"
+    in: {x: xs}
+    scatter: x
+    out: [y]
+"""
+
+CWL_SCATTER_2 = """#!/usr/bin/env cwl-runner
+cwlVersion: v1.2
+class: Workflow
+requirements:
+  InlineJavascriptRequirement: {}
+  ScatterFeatureRequirement: {}
+  SubworkflowFeatureRequirement: {}
+inputs:
+  xss:
+    type: {type: array, items: {type: array, items: int}}
+outputs:
+  yss:
+    type: Any
+    outputSource: outer/ys
+steps:
+  outer:
+    run:
+      class: Workflow
+      inputs: {xs: "int[]"}
+      outputs:
+        ys:
+          type: Any
+          outputSource: work/y
+      steps:
+        work:
+          run:
+            class: ExpressionTool
+            inputs: {x: int}
+            outputs: {y: int}
+            expression: "${return {'y': inputs.x * 2 + 1};}"
+          in: {x: xs}
+          scatter: x
+          out: [y]
+    in: {xs: xss}
+    scatter: xs
+    out: [ys]
+"""
+
+
+class _Map(Transformer):
+    """a real element-wise step (streamflow Transformer): tag preserved, value mapped by `f`"""
+    f = "id"
+
+    async def transform(self, inputs):
+        (name, tok), = inputs.items()
+        return {name: apply_f(self.f, tok)}
 
 
 # ------------------------------------------------------------------------------------------------
@@ -207,6 +282,7 @@ class C01(Property):
             "scalar/list/dict/ObjectToken elements, an element-wise tag-preserving map in between; 1..4 concurrent parent tags; nesting "
             "1..3 (chained scatters and chained gathers; one gather with depth=d); arrival order at the gather imposed token by token "
             "(in-order, reversed, size-first, size-last, shuffled, all permutations for n<=3 in quick / n<=5 in thorough) or left to the shuffling event loop; "
+            "whole pipelines scatter^k -> Transformer -> gather^k (k<=3) and generated CWL scatter workflows (1-2 levels) run by the real executor; "
             "incomplete streams (missing size / missing elements / FAILED) for the forced-gathering branch. Every gather stage is "
             "compared with the Lean model (driver) on the same event list; complete streams are checked against the property "
             "(exactly one list per key, original tag, original values in original order). Non-trivial = distinct (depth, arrival order) with n>=2.")
@@ -220,8 +296,9 @@ class C01(Property):
     technique = ("Lean 4 theorems about an executable model of ScatterStep._scatter / GatherStep.run (any arrival order, any length, several keys, "
                  "depth parameter, nesting, forced gathering) + ast translator of the guards + differential correspondence on the real step classes")
     level_text = ("grade A: unbounded theorems — scatter tags, uniqueness of the compare_tags-sorted permutation (0.10 after 0.9 proved), gather of any "
-                  "interleaving of element/size tokens yields exactly one list per key in index order (single key, several concurrent keys, depth d, "
-                  "chained nested gathers), forced gathering; guards regenerated from the source each run; model compared with the real steps")
+                  "interleaving of element/size tokens yields exactly one list per key in index order (single key, several concurrent keys, any depth d, "
+                  "chained nested gathers of ANY depth with every stage in any order, termination tokens anywhere), forced gathering; guards regenerated "
+                  "from the source each run; model compared with the real steps, whole pipelines and CWL scatter workflows under the real executor")
     level_note = ("Lean kernel, axioms within {propext, Classical.choice, Quot.sound}; trusts the gatherguards/tagguards extractors and the "
                   "event-list abstraction of asyncio.wait; the K-check drives the real ScatterStep/GatherStep with real ports")
     assumptions = ["tags are dotted decimal strings rooted at 0 with more components than the gather depth",
@@ -245,7 +322,7 @@ class C01(Property):
             finally:
                 await context.close()
 
-        run_controlled(main, seed, timeout=max(30.0, ctx.time_left() + 60))
+        run_controlled(main, seed, timeout=max(30.0, ctx.time_left() + 900))
         got = ctx.lean("Drivers/C01.lean", self._lines)
         for g, (real, how, case) in zip(got, self._expect):
             if how == "exact":
@@ -295,6 +372,20 @@ class C01(Property):
             for _ in range(16 if wide else 5):
                 yield {"op": "nested", "levels": levels, "value": rand_nested(rng, levels, [1, 2, 3, 11] if levels == 2 else [1, 2, 4]),
                        "tag": "0", "f": "id", "oseed": rng.randrange(1 << 30), "imposed": True, "single_gather": True}
+        # the whole pipeline run by the real executor: scatter^levels -> Transformer -> gather^levels, all steps concurrent
+        for i in range(40 if wide else 12):
+            levels = rng.choice([1, 1, 2, 3])
+            sizes = {1: BOUNDARY + [3, 20, 40], 2: [0, 1, 2, 3, 11, 12], 3: [0, 1, 2, 3, 11]}[levels]
+            yield {"op": "pipeline", "levels": levels, "inputs": [{"tag": t, "value": rand_nested(rng, levels, sizes)}
+                                                                for t in rng.sample(["0", "1", "2", "10"], rng.randint(1, 3))],
+                   "f": rng.choice(["id", "wrap", "str"]), "oseed": rng.randrange(1 << 30)}
+        # end to end through the CWL front end (real translator + executor, in-memory db): scatter over an array, scatter of scatter
+        cwl = [(1, [5, 3, 9, 1, 0, 7, 2, 8, 6, 4, 11, 10]), (1, [4]), (2, [[1, 2, 3], [4], [5, 6, 7, 8, 9, 10, 11, 12, 13, 14, 15, 16]])]
+        if wide:
+            cwl += [(1, [rng.randint(0, 99) for _ in range(rng.choice([2, 10, 11, 13, 25]))]) for _ in range(4)]
+            cwl += [(2, [[rng.randint(0, 99) for _ in range(rng.choice([1, 2, 11]))] for _ in range(rng.choice([1, 3, 11]))]) for _ in range(4)]
+        for levels, value in cwl:
+            yield {"op": "cwl", "levels": levels, "value": value}
         # incomplete streams: the forced-gathering branch (the property's premise fails; model vs code only)
         for _ in range(60 if wide else 20):
             n = rng.choice([0, 1, 2, 3, 11])
@@ -304,7 +395,7 @@ class C01(Property):
     # --------------------------------------------------------------------------------------------
     async def run_case(self, ctx: Ctx, rig: Rig, case: dict) -> None:
         try:
-            await asyncio.wait_for(self._run_case(ctx, rig, case), 90)
+            await asyncio.wait_for(self._run_case(ctx, rig, case), 1800)
         except (sd.StepHang, asyncio.TimeoutError) as e:
             ctx.fail("gather:hang", f"the real steps did not terminate: {e}", case)
         except Exception as e:  # noqa: BLE001
@@ -321,8 +412,9 @@ class C01(Property):
         out, step = await rig.gather(depth, events, imposed)
         ids: dict = {}
         line = lean_gather_line(depth, events, ids)
-        self._lines.append(line)
-        self._expect.append((render_real_out(out, ids), "exact" if imposed else "sets", dict(case, stage=stage, line=line)))
+        exp = (render_real_out(out, ids), "exact" if imposed else "sets", dict(case, stage=stage, line=line))
+        self._lines.append(line)       # (line, expectation) are appended together: a crash in between must not misalign them
+        self._expect.append(exp)
         return out
 
     async def _run_case(self, ctx: Ctx, rig: Rig, case: dict) -> None:
@@ -369,6 +461,10 @@ class C01(Property):
                 self._monitor(ctx, case, out, [expect_tree(case["f"], case["value"], levels, case["tag"])])
             ctx.case({"case": _brief(case)}, ("nested", levels, case["single_gather"], repr(case["value"])[:200], case["oseed"]),
                      f"nested-{levels}" + ("-single-gather" if case["single_gather"] else ""))
+        elif op == "pipeline":
+            await self._pipeline(ctx, rig, case)
+        elif op == "cwl":
+            await self._cwl(ctx, rig, case)
         elif op == "partial":
             n = case["n"]
             elems = [Token(value=i, tag=f"0.{i}") for i in range(n)]
@@ -386,6 +482,120 @@ class C01(Property):
             raise ValueError(op)
 
     # --------------------------------------------------------------------------------------------
+    async def _pipeline(self, ctx: Ctx, rig: Rig, case: dict) -> None:
+        """ScatterStep^levels -> Transformer(f) -> GatherStep^levels (each gather wired to the size port of its scatter, as the CWL
+        translator does), every step run concurrently by the real StreamFlowExecutor under the shuffling event loop"""
+        levels = case["levels"]
+        wf = rig._wf()
+        p_in = wf.create_port()
+        cur, size_ports = p_in, []
+        for lv in range(levels):
+            sc = wf.create_step(cls=ScatterStep, name=f"/s{lv}/x-scatter")
+            sc.add_input_port("x", cur)
+            cur = wf.create_port()
+            sc.add_output_port("x", cur)
+            size_ports.append(sc.get_size_port())
+        m = wf.create_step(cls=_Map, name="/map")
+        m.f = case["f"]
+        m.add_input_port("x", cur)
+        cur = wf.create_port()
+        m.add_output_port("x", cur)
+        gathers = []
+        for lv in reversed(range(levels)):
+            g = wf.create_step(cls=GatherStep, name=f"/s{lv}/x-gather", size_port=size_ports[lv], depth=1)
+            g.add_input_port("x", cur)
+            cur = wf.create_port()
+            g.add_output_port("x", cur)
+            gathers.append(g)
+        await wf.save(rig.context.database)
+        inputs = [build_token(i["value"], levels, i["tag"]) for i in case["inputs"]]
+        await sd.save_tokens(rig.context, p_in, inputs)
+        for t in inputs:
+            p_in.put(t)
+        p_in.put(TerminationToken())
+        hung, _, live = await sd.run_workflow(wf, StreamFlowExecutor(wf).run())
+        if hung:
+            raise sd.StepHang(f"pipeline made no progress for 180 s; steps still running: {live}")
+        out = list(cur.token_list)
+        self._monitor(ctx, case, out, [expect_tree(case["f"], i["value"], levels, i["tag"]) for i in case["inputs"]], check_status=False)
+        # every gather of the pipeline against the model: its two input logs in a canonical interleaving, outputs compared per key
+        for g in gathers:
+            gin, gsz = g.get_input_port(), g.get_size_port()
+            events = [("e", t) for t in gin.token_list if not isinstance(t, TerminationToken)] + \
+                     [("s", t) for t in gsz.token_list if not isinstance(t, TerminationToken)] + \
+                     [("te", next(t.value.name for t in gin.token_list if isinstance(t, TerminationToken))),
+                      ("ts", next(t.value.name for t in gsz.token_list if isinstance(t, TerminationToken)))]
+            ids: dict = {}
+            line = lean_gather_line(1, events, ids)
+            exp = (render_real_out(list(g.get_output_port().token_list), ids), "sets", dict(case, stage=g.name, line=line[:300]))
+            self._lines.append(line)
+            self._expect.append(exp)
+        ctx.case({"case": _brief(case), "out": [sd.untoken(t) for t in out][:2]},
+                 ("pipeline", levels, repr(case["inputs"])[:300], case["oseed"]), f"pipeline-{levels}")
+
+    # --------------------------------------------------------------------------------------------
+    async def _cwl(self, ctx: Ctx, rig: Rig, case: dict) -> None:
+        """a generated CWL scatter workflow (ExpressionTool body) through the real CWLTranslator and executor, in-process on the check's
+        in-memory database; the workflow output against the property, every GatherStep of the translated workflow against the model"""
+        import logging
+        import cwl_utils.parser
+        import cwl_utils.parser.utils
+        from streamflow.config.config import WorkflowConfig
+        from streamflow.cwl.translator import CWLTranslator
+        from streamflow.log_handler import logger as sf_logger
+
+        sf_logger.setLevel(logging.ERROR)
+        rig.n += 1
+        wdir = os.path.join(ctx.scratch, f"cwl-{rig.n}")
+        os.makedirs(wdir, exist_ok=True)
+        doc, job = os.path.join(wdir, "scatter.cwl"), os.path.join(wdir, "job.yml")
+        with open(doc, "w") as f:
+            f.write(CWL_SCATTER_1 if case["levels"] == 1 else CWL_SCATTER_2)
+        with open(job, "w") as f:
+            json.dump({"xs" if case["levels"] == 1 else "xss": case["value"]}, f)
+        cfg = {"version": "v1.0", "workflows": {"w": {"type": "cwl", "config": {"file": doc, "settings": job}}}, "path": wdir}
+        cwl_definition = cwl_utils.parser.load_document_by_uri(doc)
+        cwl_inputs = cwl_utils.parser.utils.load_inputfile_by_uri(version=cwl_definition.cwlVersion, path=job,
+                                                                   loadingOptions=cwl_definition.loadingOptions)
+        # the scheduler, the job pipeline and the JavaScript engine take part in a CWL run: a stall is charged to scatter/gather only
+        # when it is reproducible (three runs out of three); one-off stalls are counted and noted
+        for attempt in range(3):
+            wf = CWLTranslator(context=rig.context, name=f"c01cwl-{rig.n}-{attempt}", output_directory=wdir, cwl_definition=cwl_definition,
+                               cwl_inputs=cwl_inputs, cwl_inputs_path=job, workflow_config=WorkflowConfig("w", cfg)).translate()
+            await wf.save(rig.context.database)
+            hung, outputs, live = await sd.run_workflow(wf, StreamFlowExecutor(wf).run())
+            if not hung:
+                break
+            ctx.count("cwl-stall")
+            ctx.notes.append(f"CWL run stalled (attempt {attempt + 1}) on {case}: steps still running {live}")
+        if hung:
+            raise sd.StepHang(f"CWL scatter workflow made no progress for 180 s; steps still running: {live}")
+
+        def f2(v):
+            return [f2(x) for x in v] if isinstance(v, list) else v * 2 + 1
+
+        got = outputs.get("ys" if case["levels"] == 1 else "yss")
+        if got != f2(case["value"]):
+            flat = sorted(sd_flat(got)) == sorted(sd_flat(f2(case["value"])))
+            ctx.fail("cwl:wrong-order" if flat else "cwl:wrong-content", f"workflow output {got!r}, expected {f2(case['value'])!r}", case)
+        for st in wf.steps.values():
+            if isinstance(st, GatherStep):
+                gin, gsz = st.get_input_port(), st.get_size_port()
+                tin = [t for t in gin.token_list if isinstance(t, TerminationToken)]
+                tsz = [t for t in gsz.token_list if isinstance(t, TerminationToken)]
+                if not tin or not tsz:
+                    continue
+                events = [("e", t) for t in gin.token_list if not isinstance(t, TerminationToken)] + \
+                         [("s", t) for t in gsz.token_list if not isinstance(t, TerminationToken)] + \
+                         [("te", tin[0].value.name), ("ts", tsz[0].value.name)]
+                ids: dict = {}
+                line = lean_gather_line(st.depth, events, ids)
+                exp = (render_real_out(list(st.get_output_port().token_list), ids), "sets", dict(case, stage=st.name, line=line[:300]))
+                self._lines.append(line)
+                self._expect.append(exp)
+        ctx.case({"case": case, "outputs": outputs}, ("cwl", case["levels"], repr(case["value"])[:300]), f"cwl-{case['levels']}")
+
+    # --------------------------------------------------------------------------------------------
     def _check_scatter(self, ctx: Ctx, case: dict, inputs: list[Token], elems: list[Token], sizes: list[Token]) -> None:
         """scatter: element i of the list tagged p becomes p.i (in order), one size token (p, n) per input"""
         exp_e, exp_s = [], []
@@ -399,14 +609,15 @@ class C01(Property):
         if not (elems and isinstance(elems[-1], TerminationToken) and sizes and isinstance(sizes[-1], TerminationToken)):
             ctx.fail("scatter:no-termination", "scatter did not terminate its output ports", case)
         for t in inputs:
-            self._lines.append(f"scatter {t.tag} {len(t.value)}")
+            sline = f"scatter {t.tag} {len(t.value)}"
             # the real side of this line is what the real step emitted for this input
             mine = [e.tag for e in elems if not isinstance(e, TerminationToken) and e.tag.rsplit(".", 1)[0] == t.tag]
             msz = [s.value for s in sizes if not isinstance(s, TerminationToken) and s.tag == t.tag]
             real_line = (",".join(f"{tg}:{i}" for i, tg in enumerate(mine)) or "-") + f"|size={t.tag}:{msz[0] if msz else '?'}"
+            self._lines.append(sline)
             self._expect.append((real_line, "exact", dict(_brief(case), stage="scatter", input=t.tag)))
 
-    def _monitor(self, ctx: Ctx, case: dict, out: list[Token], expected: list) -> None:
+    def _monitor(self, ctx: Ctx, case: dict, out: list[Token], expected: list, check_status: bool = True) -> None:
         """the property: exactly one list per key, original tag, original values in original order, then termination"""
         lists = [sd.untoken(t) for t in out if not isinstance(t, TerminationToken)]
         if not out or not isinstance(out[-1], TerminationToken) or sum(isinstance(t, TerminationToken) for t in out) != 1:
@@ -429,7 +640,9 @@ class C01(Property):
                     ctx.fail("gather:wrong-content", f"list {exp[1]}: got {g!r:.300}, expected {exp!r:.300}", case)
         if by_tag:
             ctx.fail("gather:unexpected-output", f"list tokens with unexpected tags {sorted(by_tag)}", case)
-        if out[-1].value != Status.COMPLETED:
+        # (in a whole pipeline an empty list makes the upstream steps SKIPPED and the gather inherits that status although it
+        #  emits the — correct — empty list; the status is only checked where the harness feeds COMPLETED termination tokens)
+        if check_status and out[-1].value != Status.COMPLETED:
             ctx.fail("gather:status", f"termination status {out[-1].value.name} on a complete stream", case)
 
     # --------------------------------------------------------------------------------------------
@@ -453,6 +666,10 @@ class C01(Property):
             print(f"{c.get('stage')}: {ln[:400]}\n   real : {real[:600]}\n   model: {g[:600]}")
             if (g != real) if how == "exact" else (canon_sets(g) != canon_sets(real)):
                 ctx.disagree("model vs code", f"code {real!r}, model {g!r}", c)
+
+
+def sd_flat(v) -> list:
+    return [y for x in v for y in sd_flat(x)] if isinstance(v, list) else [v]
 
 
 def _brief(case: dict) -> dict:
